@@ -22,3 +22,6 @@ Definition run_metric (s : sx) : sx :=
 
 (* rnd itself, for validating Rnd64 against Python's division: case = (n d) *)
 Definition run_rnd (s : sx) : sx := ofQ (rnd (sQ s)).
+
+Definition run_c06 (sub : Z) (x : sx) : sx :=
+  if sub =? 1 then run_metric x else SL [SZ (-1)].
